@@ -10,6 +10,8 @@ META = {
                   'advection.convectionTerm*', 'advection.convectionUpwindTerm*', 'boundary.*'],
     'bounds': 'all 9 grid classes; dims 1-D [2],[3], 2-D (2,2), 3-D (2,2,2); spatial term sets {-D}, {-D,U}, {C,L,G}, {-D,U,L,G}; alpha scalar or '
               'per-cell field (symbolic, positive), dt > 0 symbolic (every magnitude at once); BCs symbolic Robin on all sides or periodic',
+    'closure': 'closure scenarios: the ghost layer reported after an implicit step satisfies the boundary rows of the assembled system (Robin, '
+               'periodic with equal end cells), i.e. implicit and explicit steps use one boundary closure',
     'outside': 'the limits dt->0 / dt->infinity as limits (the row identity dt*row = alpha (x-old) + dt (S x - s) is proved; passing to '
                'the limit uses continuity + non-singularity, which is mathematics, not a solver verdict); multi-step sequences follow by '
                'induction on the one-step identities',
@@ -196,6 +198,49 @@ def implicit_vs_explicit(ctx, g, dims, tset):
         ctx.eq('%s/%s' % (tag, '_'.join(map(str, cc))), al * (x[r] - y._value[cc]) / dt, -scen.matvec_row(rowsA, r, dvec, ctx), pre=hyp)
 
 
+def closure(ctx, g, dims, tset, periodic=False):
+    """implicit and explicit steps see ONE boundary closure: the field solvePDE leaves behind (interior from the solver, ghost layer
+    re-imposed by apply_BCs - the closure solveExplicitPDE and the gradient/divergence chain use) satisfies the boundary rows of the
+    very system the transient step assembled.  Without this the two steps differ at O(1), not O(dt^2).  Periodic axes: equal end
+    cells assumed (unequal end cells are the recorded C03 finding)."""
+    nd = len(dims)
+    m, fs, BC = _setup(ctx, g, dims, periodic)
+    per_ax = [ax for ax in range(nd) if scen.periodic_ok(g, ax)][-1] if periodic else None
+    if per_ax is not None:
+        ctx.assume((fs[per_ax][1] - fs[per_ax][0]) == (fs[per_ax][dims[per_ax]] - fs[per_ax][dims[per_ax] - 1]), 'equal end cells on periodic axis')
+    geo = scen.Geo(ctx, g, fs)
+    old = ctx.arr('o', tuple(dims))
+    phi = pf.CellVariable(m, old, BC)
+    D = scen.facevar(ctx, m, 'D'); u = scen.facevar(ctx, m, 'u')
+    beta = scen.cellvar(ctx, m, 'be'); gam = scen.cellvar(ctx, m, 'ga')
+    dt = ctx.real('dt', 'pos'); al = ctx.real('al', 'pos')
+    sol = scen.Solver(ctx)
+    pf.solvePDE(phi, [pf.transientTerm(phi, dt, al)] + _spatial(ctx, m, SETS[tset], D, u, beta, gam), externalsolver=sol)
+    rows = scen.mat_rows(sol.M)
+    fl = scen.flat(phi._value)
+    G = scen.cell_index(dims)
+    tag = 'C12/%s/%s/closure/%s%s' % (g, 'x'.join(map(str, dims)), tset, '/periodic' if periodic else '')
+    for cc in scen.all_cells(dims):
+        if scen.n_out(cc, dims) != 1:
+            continue
+        r = int(G[cc])
+        ax = [b for b, (k, n) in enumerate(zip(cc, dims)) if k == 0 or k == n + 1][0]
+        nm = '_'.join(map(str, cc))
+        if ax == per_ax:
+            ctx.eq('%s/periodic/%s' % (tag, nm), scen.matvec_row(rows, r, fl, ctx), sol.RHS[r])
+            continue
+        f = getattr(phi.BCs, scen.SIDES[2 * ax + (0 if cc[ax] == 0 else 1)])
+        inner = list(cc); inner[ax] = 1 if cc[ax] == 0 else dims[ax]
+        idx = tuple(k - 1 for b, k in enumerate(inner) if b != ax)
+        a_, b_ = np.asarray(f.a), np.asarray(f.b)
+        pick = (lambda z: z.reshape(-1)[0]) if nd == 1 else ((lambda z: z.reshape(-1)[idx[0]]) if nd == 2 else (lambda z: z[idx]))
+        av, bv = pick(a_), pick(b_)
+        i0 = tuple(k - 1 for k in inner)
+        d = geo.d(ax, i0[ax]) * geo.metric(ax, i0)
+        gcoef = (-av / d + bv / 2) if cc[ax] == 0 else (av / d + bv / 2)
+        ctx.eq('%s/robin/%s' % (tag, nm), scen.matvec_row(rows, r, fl, ctx), sol.RHS[r], pre=[gcoef != 0])
+
+
 def scenarios(tier):
     T = []
     D = {1: [[2], [3]], 2: [[2, 2], [2, 3]], 3: [[2, 2, 2], [1, 2, 3]]}
@@ -219,6 +264,9 @@ def scenarios(tier):
                     T.append({'name': 'impl_vs_expl/%s/%s/%s' % (g, ds, ts), 'fn': 'pv.props.c12:implicit_vs_explicit',
                               'params': {'g': g, 'dims': dims, 'tset': ts}, 'timeout': 40, 'validate': 1})
             for per in ((False, True) if canper else (False,)):
+                for ts in (('all',) if tier == 'quick' else ('all', 'diff')):
+                    T.append({'name': 'closure/%s/%s/%s%s' % (g, ds, ts, '/periodic' if per else ''), 'fn': 'pv.props.c12:closure',
+                              'params': {'g': g, 'dims': dims, 'tset': ts, 'periodic': per}, 'timeout': 30, 'validate': 1})
                 T.append({'name': 'explicit/%s/%s%s' % (g, ds, '/periodic' if per else ''), 'fn': 'pv.props.c12:explicit_step',
                           'params': {'g': g, 'dims': dims, 'periodic': per}, 'timeout': 30, 'validate': 1})
     T.sort(key=lambda t: -int(np.prod(t['params']['dims'])) - (100 if 'Spherical' in t['name'] else 0))
